@@ -59,6 +59,12 @@ expressions
     for its abstract records); a Python `str` the model keeps as a Lean `String` (type `PYSTR`: opaque, only `==`/`!=` and
     spec'd calls); messages of `odxraise` may contain `type(e).__name__` and subscripts — a subscript in a message IS evaluated
     (`let _ := (← Py.getItem …)` before the `throw`: it can raise first)
+  * pure functions, dict-like records and local lists (W20): `k in x` / `x[k]` on a record for which the spec declares what the key
+    means (`PureSpec.keyed`: per distinguished int literal, e.g. `-1`, and for provably non-negative int keys; `x[k]` → `Py.unwrapKey`,
+    KeyError); `for b in data` over `bytes` (ints); the empty list display `[]` (element type from the joins), `xs + ys`, and
+    `xs += ys` on a LOCAL that is only ever bound to fresh lists (display / comprehension / concatenation — otherwise the in-place
+    extension could be visible through another name: `Unsupported`); `odxassert(isinstance(e, T))` without a spec'd `isinstance`
+    is a typing assertion: dropped and listed, but `e` is still evaluated (`let _ := …`)
   * several `def`s of one name in a class / module (typing.overload stubs): the LAST one is translated (Python's binding)
   * function headers: decorators `property`, `override`, `staticmethod` only; parameter defaults must be constants (they concern the
     callers; the rendering takes every parameter explicitly); annotations are never consulted
@@ -147,6 +153,8 @@ def join(a, b, node=None):
         return INT
     if is_opt(a) or is_opt(b):
         return opt(join(strip_opt(a), strip_opt(b), node))
+    if is_list(a) and is_list(b):                                      # `[]` is a list of a not yet known element type
+        return ("List", join(a[1], b[1], node))
     raise Unsupported(node, f"incompatible types {lean_ty(a)} / {lean_ty(b)}")
 
 
@@ -262,6 +270,8 @@ class Translator:
             return e.code
         if e.ty == NAT and to == INT:
             return f"Int.ofNat ({e.code})"
+        if is_list(e.ty) and e.ty[1] is None and is_list(to):
+            return e.code                                                  # `[]`
         if is_opt(to) and not is_opt(e.ty):
             return f"some ({self.coerce(e, to[1], node)})"
         if is_opt(to) and is_opt(e.ty):
@@ -451,6 +461,11 @@ class Translator:
         op = type(n.op).__name__
         if a.ty is None or b.ty is None:
             return E("_", None)
+        if is_list(a.ty) and is_list(b.ty):
+            if op != "Add":
+                raise Unsupported(n, "only + on lists")
+            t = join(a.ty, b.ty, n)
+            return E(f"({self.coerce(a, t, n)} ++ {self.coerce(b, t, n)})", t, fresh=True)
         if strip_opt(a.ty) == BYTES or strip_opt(b.ty) == BYTES:
             if op != "Add":
                 raise Unsupported(n, "only + on byte sequences")
@@ -531,6 +546,12 @@ class Translator:
             if a.ty is not None and not is_opt(a.ty):
                 return E("False" if op == "Is" else "True", BOOL)          # a value of a non-optional type is never None
             return E(f"({a.code} = none)" if op == "Is" else f"({a.code} ≠ none)", BOOL)
+        if op in ("In", "NotIn"):
+            ent = self._keyed(b, a, n)
+            if ent is None or "contains" not in ent:
+                raise Unsupported(n, "`in` on something the spec does not declare as a keyed record")
+            c = ent["contains"].format(self._key_code(a, ent, n), obj=b.code)
+            return E(c if op == "In" else f"(¬ {c})", BOOL)
         if a.ty is None or b.ty is None:
             return E("_", BOOL)
         sym = {"Eq": "=", "NotEq": "≠", "Lt": "<", "LtE": "≤", "Gt": ">", "GtE": "≥"}.get(op)
@@ -657,6 +678,14 @@ class Translator:
         a = self.ex(n.value)
         if a.ty is None:
             return E("_", None)
+        if self.pure is not None and isinstance(a.ty, tuple) and a.ty[0] == "Rec" and not isinstance(n.slice, ast.Slice):
+            k = self.ex(n.slice)
+            ent = self._keyed(a, k, n)
+            if ent is not None and "getitem" in ent:
+                tpl, ty, raises = ent["getitem"]
+                if raises:
+                    self.raising = True
+                return E(tpl.format(self._key_code(k, ent, n), obj=a.code), ty)
         if is_dict(a.ty):
             if isinstance(n.slice, ast.Slice):
                 raise Unsupported(n, "slice of a dict")
@@ -702,6 +731,25 @@ class Translator:
         if i.ty is None:
             return E("_", NAT)
         return E(f"(← Py.getItemZ {base} {i.code})", NAT)
+
+    def _keyed(self, obj: E, key: E, node):
+        """entry of the spec for `key in obj` / `obj[key]` on a record that stands for a Python dict: first the entry for this very
+        int literal (dicts with a distinguished key), else the entry for the key's type (NAT only: a provably non-negative int can
+        never be one of the distinguished negative keys)"""
+        if self.pure is None or not (isinstance(obj.ty, tuple) and obj.ty[0] == "Rec"):
+            return None
+        rec = obj.ty[1]
+        if key.lit is not None and (rec, key.lit) in self.pure.keyed:
+            return dict(self.pure.keyed[(rec, key.lit)], literal=True)
+        if key.ty == NAT and (rec, NAT) in self.pure.keyed:
+            lits = [k for (r, k) in self.pure.keyed if r == rec and isinstance(k, int)]
+            if any(k >= 0 for k in lits):
+                raise Unsupported(node, "a keyed record with a non-negative distinguished key and int keys")
+            return self.pure.keyed[(rec, NAT)]
+        return None
+
+    def _key_code(self, key: E, ent, node):
+        return "" if ent.get("literal") else key.code
 
     def _state_access(self, n):
         """`self._F[idx]` → python field name, else None"""
@@ -753,7 +801,7 @@ class Translator:
         for v, t in self.vt.items():
             if self.pure and v in self.pure.params:
                 continue
-            if t is None or (is_opt(t) and t[1] is None):
+            if t is None or (is_opt(t) and t[1] is None) or (is_list(t) and t[1] is None):
                 raise Unsupported(body[0], f"cannot infer a type for local `{v}`")
 
     def _bind(self, v, t, node):
@@ -851,7 +899,17 @@ class Translator:
         msg = call.args[1] if len(call.args) == 2 else kw.get("message")
         if msg is not None and self._message(msg):
             raise Unsupported(st, "message of odxassert evaluates a subscript (it is evaluated before the condition is tested)")
-        c = self.ex(call.args[0])
+        t = call.args[0]
+        if isinstance(t, ast.Call) and isinstance(t.func, ast.Name) and t.func.id == "isinstance" and len(t.args) == 2 \
+                and not (self.pure is not None and (None, "isinstance") in self.pure.calls):
+            # a typing assertion (like `assert isinstance(x, T)`): dropped and listed in the header — but its operand is evaluated
+            e = self.ex(t.args[0])
+            d = f"L{st.lineno}: {ast.unparse(st.value)}   (operand still evaluated)"
+            if d not in self.dropped:
+                self.dropped.append(d)
+            self.emit(ind, f"let _ := {e.code}   -- (dropped: a typing assertion; its operand is evaluated)", st)
+            return False
+        c = self.ex(t)
         if c.ty not in (BOOL, None):
             raise Unsupported(st, "odxassert on a non-boolean (truthiness is outside the subset)")
         note = "`odxassert` is rendered for strict mode (exceptions.strict_mode = True): a false condition raises OdxError"
@@ -1102,6 +1160,16 @@ class Translator:
                     self.emit(ind, f"slot := {{ slot with {lf} := {self.coerce(E(mangle(tgt.id), t), ft, st)} }}"
                                    f"   -- `+=` extends the bytearray stored in self.{al} in place")
                 return
+            if is_list(t):
+                # `xs += ys` extends the list object IN PLACE; the same as re-binding `xs = xs + ys` only if no other name can
+                # refer to that object: `xs` must be a local that is only ever bound to fresh lists
+                if not isinstance(st.op, ast.Add):
+                    raise Unsupported(st, "augmented assignment on a list other than +=")
+                if self.pure is None or tgt.id in self.pure.params or not self._only_fresh_lists(tgt.id):
+                    raise Unsupported(st, f"`{tgt.id} += …` on a list that may be shared with another name (in-place extension)")
+                r = self.ex(st.value)
+                if r.ty is not None and not is_list(r.ty):
+                    raise Unsupported(st, "list += non-list")
             e = self.ex(v)
             if not self.declared(tgt.id):
                 raise Unsupported(st, f"local `{tgt.id}` is possibly unbound")
@@ -1113,6 +1181,20 @@ class Translator:
                 raise Unsupported(st, "augmented assignment to a buffer field")
             return self._assign_field(fld, self.ex(v), st, ind, v)
         raise Unsupported(st, "augmented assignment target outside the subset")
+
+    def _only_fresh_lists(self, v):
+        """every binding of the local `v` in the function is a list display / comprehension / concatenation (a new object)"""
+        for st in ast.walk(ast.Module(body=self.fn_body, type_ignores=[])):
+            val = None
+            if isinstance(st, ast.Assign) and any(isinstance(t, ast.Name) and t.id == v for tg in st.targets for t in ast.walk(tg)):
+                val = st.value
+            elif isinstance(st, (ast.AnnAssign, ast.NamedExpr)) and isinstance(st.target, ast.Name) and st.target.id == v:
+                val = st.value
+            elif isinstance(st, ast.For) and any(isinstance(t, ast.Name) and t.id == v for t in ast.walk(st.target)):
+                return False
+            if val is not None and not isinstance(val, (ast.List, ast.ListComp, ast.BinOp)):
+                return False
+        return True
 
     def _typing_guard(self, st):
         """`if not isinstance(x, T): odxraise(…)` — a typing assertion written with odxraise: dropped like `assert isinstance`"""
@@ -1211,6 +1293,8 @@ class Translator:
                 return E("_", None)
             return E(f"({inner.code}).reverse", inner.ty)
         e = self.ex(it)
+        if e.ty == BYTES:
+            return E(e.code, ("List", NAT))                               # iterating `bytes` / `bytearray` yields ints 0 … 255
         if e.ty is not None and not is_list(e.ty):
             raise Unsupported(it, "iteration over a non-list")
         return e
@@ -1219,6 +1303,8 @@ class Translator:
         return self._comprehension(n)
 
     def ex_List(self, n):
+        if not n.elts:
+            return E("[]", ("List", None))                                 # a fresh empty list; its element type comes from the joins
         raise Unsupported(n, "list literal outside the subset")
 
     def _sorted(self, n):
@@ -1570,6 +1656,9 @@ class PureSpec:
     #                                                        [argument types], result type, can it raise?)
     calls: dict = field(default_factory=dict)
     getattr_defaults: dict = field(default_factory=dict)   # (record, attribute) -> (template, type, source text of the default)
+    # records that stand for a Python dict: (record, int literal | NAT) -> {"contains": template, "getitem": (template, type, raises?)};
+    # `{obj}` = the record, `{0}` = the key (typed entries only)
+    keyed: dict = field(default_factory=dict)
     enums: dict = field(default_factory=dict)      # plain `Enum` class -> (Lean inductive type, {member -> constructor}); ALL members
     open_ns: str = ""                              # further namespaces opened in the generated file
     prelude: list = field(default_factory=list)    # hand-written Lean lines emitted before the function (glue named by templates)
@@ -1597,6 +1686,7 @@ def translate_pure_function(src: str, func: str, spec: PureSpec, namespace: str,
     body = list(fn.body)
     while body and isinstance(body[0], ast.Expr) and isinstance(body[0].value, ast.Constant) and isinstance(body[0].value.value, str):
         body.pop(0)
+    tr.fn_body = body
     tr.infer(body, {k: v[0] for k, v in spec.params.items()})
     if tr.pure_ret is None:
         for st in ast.walk(ast.Module(body=body, type_ignores=[])):       # surface the reason (inference swallows it before its last round)
@@ -1622,6 +1712,13 @@ def translate_pure_function(src: str, func: str, spec: PureSpec, namespace: str,
         o.append(f"      {rec}.{at} ↔ {tpl.format('·') or at} : {lean_ty(ty)}")
     for (rec, at), (tpl, ty, dflt) in spec.getattr_defaults.items():
         o.append(f"      getattr({rec}, {at!r}, {dflt}) ↔ {tpl.format('·')} : {lean_ty(ty)}   (the attribute, or {dflt} for objects without it)")
+    for (rec, k), ent in spec.keyed.items():
+        ks = str(k) if isinstance(k, int) else f"‹{lean_ty(k)}›"
+        kk = "" if isinstance(k, int) else "‹k›"
+        if "contains" in ent:
+            o.append(f"      {ks} in {rec} ↔ {ent['contains'].format(kk, obj='·')} : Bool")
+        if "getitem" in ent:
+            o.append(f"      {rec}[{ks}] ↔ {ent['getitem'][0].format(kk, obj='·')} : {lean_ty(ent['getitem'][1])}{' !' if ent['getitem'][2] else ''}")
     if spec.calls:
         o.append("    functions that are not translated (python call ↔ hand-written Lean term; `!` = can raise):")
         for (rec, fname), (tpl, arg_tys, ret, raises) in spec.calls.items():
@@ -1809,6 +1906,30 @@ def regenerate_limit(repo, verif):
     return _write(Path(verif) / "lean" / "OdxVerif" / "Gen" / "CompuLimit.lean", render_limit(Path(repo)))
 
 
+# ---- `DiagLayer._find_services_for_uds`: the prefix tree (`Dict[int, Union[List[DiagService], PrefixTree]]`, the services of a node
+# under the key -1) is the model's `Trie Service` (`Model/Dispatch.lean`): byte keys ↔ `Trie.find?`, key -1 ↔ `Trie.leaf` (`[]` = absent)
+_TRIE, _SVC = ("Rec", "Trie Service"), ("Rec", "Service")
+FINDSVC_SPEC = PureSpec(
+    params={"self": (("Rec", "DiagLayer"), None), "message": (BYTES, "message")},
+    binders="(tree : Trie Service) (message : Bytes)",
+    attrs={("DiagLayer", "_prefix_tree"): ("tree", _TRIE)},
+    keyed={("Trie Service", NAT): {"contains": "(({obj}).find? {0}).isSome", "getitem": ("(← Py.unwrapKey (({obj}).find? {0}))", _TRIE, True)},
+           ("Trie Service", -1): {"contains": "(¬ ({obj}).leaf.isEmpty){0}",
+                                   "getitem": ("(← Py.unwrapKey (if ({obj}).leaf.isEmpty then none else some ({obj}).leaf)){0}", ("List", _SVC), True)}},
+    open_ns="OdxVerif.Dispatch")
+
+
+def render_findsvc(repo: Path) -> str:
+    rel = "odxtools/diaglayers/diaglayer.py"
+    return translate_pure_function((Path(repo) / rel).read_text(), "_find_services_for_uds", FINDSVC_SPEC, "OdxVerif.Dispatch.Gen",
+                                   ["OdxVerif.Model.Dispatch", "OdxVerif.Model.PyRt"], rel, cls_name="DiagLayer",
+                                   lean_name="findServicesForUds")
+
+
+def regenerate_findsvc(repo, verif):
+    return _write(Path(verif) / "lean" / "OdxVerif" / "Gen" / "DispatchWalk.lean", render_findsvc(Path(repo)))
+
+
 # ---- `Parameter.is_required` of the parameter classes the codec model knows + `composite_codec_get_required_parameters`
 # (python file, class, constructor pattern of the model's `PKind`, binders, attrs): the dispatch `p.is_required` on the run-time class
 # of `p` is the hand-written table `isRequiredE` below (class ↔ constructor of `PKind`, the same reading as the model's encoder)
@@ -1917,8 +2038,10 @@ if __name__ == "__main__":
     repo = Path(sys.argv[1]) if len(sys.argv) > 1 else Path("/repo")
     if len(sys.argv) > 2:
         for regen in (regenerate_isotp, regenerate_staticlen, regenerate_muxkey, regenerate_limit, regenerate_inherit_prio,
-                      regenerate_itemkey, regenerate_odxlink_resolve, regenerate_required):
+                      regenerate_itemkey, regenerate_odxlink_resolve, regenerate_required,
+                      regenerate_findsvc):
             print(regen(repo, Path(sys.argv[2])))
     else:
-        for render in (render_isotp, render_staticlen, render_muxkey, render_limit, render_inherit_prio, render_itemkey, render_odxlink_resolve, render_required):
+        for render in (render_isotp, render_staticlen, render_muxkey, render_limit, render_inherit_prio, render_itemkey, render_odxlink_resolve, render_required,
+                       render_findsvc):
             sys.stdout.write(render(repo))
